@@ -460,9 +460,34 @@ class StartStageHandler(
                     )
             return
         except ConcurrencyError:
-            # Another handler already claimed this stage (race condition with
-            # multiple upstream stages completing simultaneously). This is safe
-            # to ignore - the stage is already being processed.
+            # Usually another handler already claimed this stage (race condition
+            # with multiple upstream stages completing simultaneously), which is
+            # safe to ignore - the stage is already being processed.
+            #
+            # But the version can also have been bumped by a writer that did NOT
+            # claim the stage (a persistent signal being buffered, first-of /
+            # quorum join bookkeeping). Then nobody is starting the stage and
+            # dropping this StartStage would leave it NOT_STARTED forever with an
+            # empty queue, so re-queue the start request.
+            stage.status = WorkflowStatus.NOT_STARTED
+            stage.start_time = None
+            fresh = self.repository.retrieve_stage(message.stage_id)
+            if fresh is not None and fresh.status == WorkflowStatus.NOT_STARTED:
+                logger.debug(
+                    "Claim of %s lost to a non-claiming writer, re-queuing StartStage",
+                    stage.name,
+                )
+                retry_count = getattr(message, "retry_count", 0) or 0
+                self.queue.push(
+                    StartStage(
+                        execution_type=message.execution_type,
+                        execution_id=message.execution_id,
+                        stage_id=message.stage_id,
+                        retry_count=retry_count + 1,
+                    ),
+                    self.retry_delay,
+                )
+                return
             logger.debug(
                 "Ignoring duplicate StartStage for %s (concurrent claim)",
                 stage.name,
